@@ -160,6 +160,32 @@ def determinism_selftest(mod, tier, root, agg, n=6):
             'modes': ['forked worker vs. parent process', 'fresh interpreter, PYTHONHASHSEED=4242']}
 
 
+def history_before(mod, tier, root, order_key, case):
+    """The cases a worker executed before `case` within the same task (seeded batch or sweep unit)."""
+    try:
+        if order_key[0] == 's':
+            i = order_key[1]
+            batch = getattr(mod, 'BATCH', 200)
+            i0 = (i // batch) * batch
+            hist = []
+            for j in range(i0, i + 1):
+                seed = core.derive(root, mod.PROP, j)
+                c = mod.gen_case(random.Random(seed), tier)
+                c['_seed'] = seed
+                hist.append(c)
+            return hist
+        if order_key[0] == 'u':
+            units = mod.sweep_units(tier, root)
+            hist = []
+            for j, c in enumerate(mod.expand_unit(units[order_key[1]])):
+                hist.append(c)
+                if j == order_key[2]:
+                    return hist
+    except Exception:   # noqa
+        return None
+    return None
+
+
 def do_check(mod, modname, args, root):
     tier = args.tier
     cfg = dict(mod.TIERS[tier])
@@ -192,16 +218,24 @@ def do_check(mod, modname, args, root):
     reported = []
     known_matched = []
     t_min_budget = max(10.0, min(60.0, cfg['budget'] * 0.5)) / max(1, len(by_cls))
+    unreproducible = []
     for cls, (order_key, case, v) in sorted(by_cls.items()):
         got = shrink.minimise(mod, case, cls, budget_s=t_min_budget)
         if got is None:
-            raise HarnessError(f'violation {cls} found by a worker does not reproduce in the parent '
-                               f'(order_key={order_key}): harness determinism bug')
+            # not reproducible on its own: does it reproduce after the runs that preceded it in its batch?
+            # (then the system under test carries state from one request/parse to the next in a process-wide object)
+            hist = history_before(mod, tier, root, order_key, case)
+            if hist is not None:
+                got = shrink.minimise(mod, {'history': hist}, cls, budget_s=t_min_budget)
+        if got is None:
+            unreproducible.append((cls, order_key))
+            continue
         mcase, res, viol, steps = got
         # confirm once more from the explicit minimised trace
         again = shrink.still_fails(mod, mcase, cls)
         if again is None:
-            raise HarnessError(f'minimised case for {cls} does not reproduce')
+            unreproducible.append((cls, order_key))
+            continue
         k = core.match_known(mod.PROP, cls, known)
         path = core.write_replay(mod.PROP, cls, mcase, viol, again[0]['digest'], original_case=case,
                                  subdir='known' if k else None)
@@ -214,6 +248,14 @@ def do_check(mod, modname, args, root):
             reported.append({'class': cls, 'replay': path, 'message': viol['msg'], 'shrink_steps': steps})
             exit_code = 1
 
+    if unreproducible:
+        if not reported and not known_matched:
+            raise HarnessError(f'violations {unreproducible[:3]} found by workers do not reproduce in the parent, neither '
+                               f'alone nor after the runs preceding them in their batch: harness determinism bug')
+        # other classes of the same batch did reproduce and are reported with replay files; these ones were seen only
+        # in worker processes that had served other runs before (state carried over inside the system under test)
+        for cls, ok in unreproducible:
+            print(f'note: class {cls} (run {ok}) was observed by a worker but did not reproduce from its trace alone')
     wall = time.time() - t0
     if not args.no_evidence:
         write_evidence(mod, tier, root, agg, wall, selftest, reported, known_matched, cfg)
